@@ -529,6 +529,8 @@ def run(ctx):
     if os.path.exists(os.path.join(core.VERIF, "props", "C01core.py")):
         import importlib
         importlib.import_module("props.C01core").run_part(ctx)
+    # regression cases over several stylesheet modules (props/C01_regress.py)
+    importlib.import_module("props.C01_regress").run_part(ctx)
     # part 2 of it (props/C01core2.py): the language extended by xsl:element / xsl:comment / xsl:processing-instruction
     if os.path.exists(os.path.join(core.VERIF, "props", "C01core2.py")):
         import importlib
